@@ -2,7 +2,7 @@
    firstLine, ciCheck, markupCheck, xmlCheck, as translated from the current source (Gen/SrcFuncs.v), never reach Panic
    (no index out of range, loop fuel never exhausted) and compute the hand-written list models of Model/Sigs.v. *)
 From Coq Require Import Lia.
-From Verif Require Import Base.Bytes Model.Sigs Model.GoRes Gen.SrcFuncs Proofs.SrcBaseP.
+From Verif Require Import Base.Bytes Model.Types Model.Sigs Model.Text Gen.Tables Gen.SigData Model.GoRes Gen.SrcFuncs Proofs.SrcBaseP.
 Local Open Scope Z_scope.
 
 Lemma zltb_N a k : (Z.of_N a <? Z.of_N k) = (a <? k)%N.
@@ -272,4 +272,40 @@ Proof.
   unfold src_shebang, shebang. cbv zeta. rewrite src_firstLine_ok. cbn [rbind].
   rewrite (any_loop (fun s => src_shebangCheck s (first_line raw)) (fun s => shebang_check s (first_line raw))) by (intros x; apply src_shebangCheck_ok).
   cbn [rbind]. destruct (existsb _ sigs); reflexivity.
+Qed.
+
+(* ---- Text (C07) and Svg ---- *)
+Lemma bin_byte_src c :
+  ((((Z.of_N c <=? 8) || (Z.of_N c =? 11)) || ((14 <=? Z.of_N c) && (Z.of_N c <=? 26))) || ((28 <=? Z.of_N c) && (Z.of_N c <=? 31)))
+  = bin_byte_impl c.
+Proof.
+  unfold bin_byte_impl. change 8 with (Z.of_N 8). change 11 with (Z.of_N 11). change 14 with (Z.of_N 14).
+  change 26 with (Z.of_N 26). change 28 with (Z.of_N 28). change 31 with (Z.of_N 31).
+  rewrite !zleb_N, !zeqb_N. reflexivity.
+Qed.
+
+Theorem src_Text_ok raw lim : src_Text raw lim = Val (text_det boms raw).
+Proof.
+  unfold src_Text, text_det. cbv zeta. destruct (from_bom boms raw) as [|e0 enc]; [|reflexivity].
+  cbn [beq negb].
+  assert (L : forall l i, range_loop (S := unit) (R := bool) (fun _ c2 _ =>
+                (if (((c2 <=? 8) || (c2 =? 11)) || ((14 <=? c2) && (c2 <=? 26))) || ((28 <=? c2) && (c2 <=? 31))
+                 then Val (Return false) else Val (Next tt))) i l tt
+              = Val (if forallb (fun c => negb (bin_byte_impl c)) l then Done tt else Returned false)).
+  { induction l as [|c l IH]; intros i; [reflexivity|]. cbn [range_loop forallb]. rewrite bin_byte_src.
+    destruct (bin_byte_impl c); cbn [rbind negb andb]; [reflexivity|apply IH]. }
+  rewrite L. cbn [rbind]. destruct (forallb _ raw); reflexivity.
+Qed.
+
+(* ---- Php: the two package-level detectors it calls are read off their declarations (ciPrefix / shebang of literals) ---- *)
+Theorem src_Php_ok raw l :
+  src_Php raw l = Val (match assoc "phpPageF"%string sigs, assoc "phpScriptF"%string sigs with
+                       | Some (DCiPrefix a), Some (DShebang c) => ci_prefix a raw || shebang c raw
+                       | _, _ => false
+                       end).
+Proof.
+  unfold src_Php. cbv zeta. rewrite src_ciPrefix_ok. cbn [rbind].
+  set (p := assoc "phpPageF"%string sigs). vm_compute in p. subst p.
+  set (q := assoc "phpScriptF"%string sigs). vm_compute in q. subst q. cbv iota beta.
+  destruct (ci_prefix _ raw); cbn [orb]; [reflexivity|]. rewrite src_shebang_ok. reflexivity.
 Qed.
